@@ -19,6 +19,8 @@ import (
 	"os"
 	"strconv"
 	"strings"
+	"sync"
+	"sync/atomic"
 	"time"
 
 	"verifharness/internal/vlib"
@@ -26,7 +28,7 @@ import (
 
 const rule = "a case is one logger life in a fresh process: 1-32 producer goroutines, 1-4 level phases (global level, per-package levels for 4 call-site directories, " +
 	"initial levels from the -log/-plog flags, some phases with level changes racing with the producers), 96 call sites (directory x plain/f/tracer-method x severity), " +
-	"unique lines, runs of identical lines, A-B-A repeats, texts shared by goroutines, equal texts from different call sites, context tracers (0-6 lines, optionally collected by 3 goroutines); " +
+	"unique lines, texts without identity (empty, blank, line breaks only) and with trailing/embedded line breaks or 1-40 kB long, runs of identical lines, A-B-A repeats, texts shared by goroutines, equal texts from different call sites, context tracers (0-6 lines, optionally collected by 3 goroutines); " +
 	"writer free-running or externally triggered (periods 0-20 ms, or withheld until > 1024 lines are queued, or never), adapter delayed or held inside Write until all producers are parked; " +
 	"Shutdown after all producers finished or after a PRNG-chosen number of returned calls. Families: free, free-hold, sched, sched-withheld, small, squeeze (GOMAXPROCS 1-2 + busy goroutines during Shutdown), twin (plain lines through a nil tracer and tracer submissions with the same call site and main text logged back to back, 1-3 goroutines, writer triggered only after everything is queued), idle (free-running writer; at every barrier the adapter is held inside the final Write of a batch while more lines are logged, then released, then an idle verdict from a goroutine dump). In 2 of 5 cases 2-3 goroutines call Shutdown concurrently. " +
 	"distinct = distinct scenario signatures (family, build, producers, lines, levels per phase, shutdown moment); non-trivial = at least 10 log calls and at least one line delivered"
@@ -37,7 +39,54 @@ const (
 	childTimeout     = 100 * time.Second
 	retryTimeout     = 45 * time.Second
 	maxRetriesPerRun = 2
+	// a tree on which children hang en masse must not cost hours: after hangsShort
+	// watchdog hits the remaining children get shortTimeout, after hangsStop the
+	// remaining cases are not run (reported inconclusive)
+	hangsShort   = 3
+	hangsStop    = 8
+	shortTimeout = 30 * time.Second
 )
+
+// runPool runs the children cfg.Par at a time (like vlib.RunChildren) with the
+// adaptive watchdog described above. handle is serialised.
+func runPool(cfg vlib.Cfg, specs []vlib.ChildSpec, handle func(i int, r *vlib.ChildResult)) (notRun int) {
+	par := cfg.Par
+	if par < 1 {
+		par = 1
+	}
+	sem := make(chan struct{}, par)
+	var wg sync.WaitGroup
+	var hmu sync.Mutex
+	var hangs atomic.Int32
+	for i := range specs {
+		sem <- struct{}{}
+		h := hangs.Load()
+		if h >= hangsStop {
+			notRun++
+			<-sem
+			continue
+		}
+		cs := specs[i]
+		if h >= hangsShort {
+			cs.Timeout = shortTimeout
+		}
+		wg.Add(1)
+		go func(i int, cs vlib.ChildSpec) {
+			defer wg.Done()
+			defer func() { <-sem }()
+			r := vlib.RunChild(cfg, cs)
+			if r.TimedOut {
+				hangs.Add(1)
+			}
+			hmu.Lock()
+			handle(i, r)
+			hmu.Unlock()
+			_ = os.RemoveAll(r.Dir)
+		}(i, cs)
+	}
+	wg.Wait()
+	return notRun
+}
 
 // functions whose races are about the buffer / wake-up protocol of the property
 var raceScope = []string{"portbase/log.log", "portbase/log.writer", "portbase/log.finalizeWriting", "portbase/log.(*ContextTracer).Submit",
@@ -101,7 +150,7 @@ func main() {
 			add(sc, fmt.Sprintf("replay-%02d", i))
 		}
 	} else {
-		nPlain, nRace := cfg.N(128, 2400), cfg.N(48, 600)
+		nPlain, nRace := cfg.N(128, 1400), cfg.N(48, 350)
 		// development aid: H_LOG_ONLY=<family> keeps one family, H_LOG_N=<n> scales the list
 		only := os.Getenv("H_LOG_ONLY")
 		if v, err := strconv.Atoi(os.Getenv("H_LOG_N")); err == nil && v > 0 {
@@ -126,11 +175,11 @@ func main() {
 		// Plain lines and tracer submissions with equal site and text, queued back to
 		// back and taken by the writer in one batch (family twin; small cases).
 		if only == "" || only == "twin" {
-			for i := 0; i < cfg.N(64, 600); i++ {
+			for i := 0; i < cfg.N(64, 400); i++ {
 				add(genScenario(cfg, 200000+i, "plain", "twin"), fmt.Sprintf("plain-tw%04d", i))
 			}
 			if cfg.BinRace != "" {
-				for i := 0; i < cfg.N(16, 150); i++ {
+				for i := 0; i < cfg.N(16, 100); i++ {
 					add(genScenario(cfg, 200000+i, "race", "twin"), fmt.Sprintf("race-tw%04d", i))
 				}
 			}
@@ -138,11 +187,11 @@ func main() {
 		// Free-running writer with the adapter held inside the final Write of a batch
 		// while more lines are logged, then an idle verdict (family idle; small cases).
 		if only == "" || only == "idle" {
-			for i := 0; i < cfg.N(48, 400); i++ {
+			for i := 0; i < cfg.N(48, 250); i++ {
 				add(genScenario(cfg, 300000+i, "plain", "idle"), fmt.Sprintf("plain-id%04d", i))
 			}
 			if cfg.BinRace != "" {
-				for i := 0; i < cfg.N(12, 100); i++ {
+				for i := 0; i < cfg.N(12, 60); i++ {
 					add(genScenario(cfg, 300000+i, "race", "idle"), fmt.Sprintf("race-id%04d", i))
 				}
 			}
@@ -160,6 +209,7 @@ func main() {
 	}
 
 	retried := 0
+	watchdogHits := 0
 	var handle func(i int, c *vlib.ChildResult, attempt int)
 	handle = func(i int, c *vlib.ChildResult, attempt int) {
 		sc := scs[i]
@@ -180,7 +230,7 @@ func main() {
 			// watchdog: not a verdict. Re-run the same spec once, with a shorter
 			// watchdog, and only a few times per run: a tree on which children hang must
 			// not multiply the run time (retries run while the other results wait).
-			if attempt < 1 && retried < maxRetriesPerRun && cfg.Replay == "" {
+			if attempt < 1 && retried < maxRetriesPerRun && watchdogHits <= hangsShort && cfg.Replay == "" {
 				retried++
 				cs := specs[i]
 				cs.Timeout = retryTimeout
@@ -203,7 +253,16 @@ func main() {
 			rep.Inconclusive("case %s left no output", c.Name)
 		}
 	}
-	vlib.RunChildren(cfg, specs, func(i int, c *vlib.ChildResult) { handle(i, c, 0) })
+	notRun := runPool(cfg, specs, func(i int, c *vlib.ChildResult) {
+		if c.TimedOut {
+			watchdogHits++
+		}
+		handle(i, c, 0)
+	})
+	rep.Count("watchdog_hits", int64(watchdogHits))
+	if notRun > 0 {
+		rep.Inconclusive("%d children hung until their watchdog; the remaining %d cases of the run were not executed", watchdogHits, notRun)
+	}
 	rep.Count("cases_retried_after_watchdog", int64(retried))
 	if cfg.Replay != "" && rep.NViolations() == 0 {
 		rep.Note("replay: the scenario was re-executed %d times without reproducing; the witness is schedule-dependent (the record in the replay file is the observed history)", len(specs))
@@ -223,6 +282,7 @@ func main() {
 		rep.Floor(rep.Counter("cases_concurrent_shutdown_calls_with_lines_pending") >= 20, "cases_concurrent_shutdown_calls_with_lines_pending=%d", rep.Counter("cases_concurrent_shutdown_calls_with_lines_pending"))
 		rep.Floor(rep.Counter("submissions_after_plain_lines_of_same_goroutine") >= 200, "submissions_after_plain_lines_of_same_goroutine=%d", rep.Counter("submissions_after_plain_lines_of_same_goroutine"))
 		rep.Floor(rep.Counter("global_level_changes_with_pkg_levels_untouched") >= 8, "global_level_changes_with_pkg_levels_untouched=%d", rep.Counter("global_level_changes_with_pkg_levels_untouched"))
+		rep.Floor(rep.Counter("odd_text_lines") >= 2000 && rep.Counter("odd_text_submissions") >= 100, "odd_text_lines=%d odd_text_submissions=%d", rep.Counter("odd_text_lines"), rep.Counter("odd_text_submissions"))
 		rep.Floor(rep.Counter("cases_shutdown_mid") >= 5, "cases_shutdown_mid=%d", rep.Counter("cases_shutdown_mid"))
 		rep.Floor(rep.Counter("lines_below_level") >= 1000 && rep.Counter("lines_must") >= 10000, "lines: must=%d below=%d", rep.Counter("lines_must"), rep.Counter("lines_below_level"))
 	}
